@@ -50,8 +50,14 @@ type Plan struct {
 }
 
 type Case struct {
-	Side    string   `json:"side"` // server | client | nego (server side, negotiation inside the measured stream)
-	Msize   uint32   `json:"msize"`
+	// server | client | nego (server side, negotiation inside the measured stream, one frame above the new msize)
+	// | lower (server side, SrvMsize set: the measured stream starts with a Tversion that lowers the msize
+	// from SrvMsize to Msize, every following frame fits) | pend (server side, Maxpend set)
+	Side  string `json:"side"`
+	Msize uint32 `json:"msize"`
+	// server side, classes lower and pend (the executor looks at the fields, Side only names the class)
+	SrvMsize uint32 `json:"srvmsize,omitempty"` // the server's own msize; the stream starts with Tversion(Msize)
+	Maxpend  int    `json:"maxpend,omitempty"`  // Srv.Maxpend; nothing is held inside the implementation
 	Dotu    bool     `json:"dotu"`
 	Seed    uint64   `json:"seed"`
 	TagBase uint16   `json:"tagbase,omitempty"`
@@ -304,7 +310,11 @@ func recordAs(test string, c *Case, n int, bounds []int) {
 	cuts := cutsOf(c.Plan, n, bounds)
 	split := splitsAFrame(cuts, n, bounds)
 	wraps := n / int(8*c.Msize)
-	hx.Label(fmt.Sprintf("%s msize=%d plan=%s", c.Side, c.Msize, c.Plan.Kind))
+	if c.Side == "lower" { // any msize 24..300
+		hx.Label(fmt.Sprintf("lower msize=%s plan=%s", sizeBucket(c.Msize), c.Plan.Kind))
+	} else {
+		hx.Label(fmt.Sprintf("%s msize=%d plan=%s", c.Side, c.Msize, c.Plan.Kind))
+	}
 	hx.Label(fmt.Sprintf("%s dotu=%v frames=%s", c.Side, c.Dotu, bucket(len(bounds))))
 	switch {
 	case wraps == 0:
@@ -327,6 +337,14 @@ func recordAs(test string, c *Case, n int, bounds []int) {
 				break
 			}
 		}
+	}
+	switch c.Side {
+	case "lower":
+		recordLower(test, c, cuts, n, bounds, split)
+		return
+	case "pend":
+		recordPend(test, c, cuts, n, bounds)
+		return
 	}
 	if c.Side == "nego" {
 		same := sameRead(c, cuts, bounds)
